@@ -395,6 +395,11 @@ func (vfs *BasePathFS) Rel(basepath, targpath string) (string, error) {
 // Remove removes the named file or (empty) directory.
 // If there is an error, it will be of type *PathError.
 func (vfs *BasePathFS) Remove(name string) error {
+	if vfs.ToBasePath(name) == vfs.basePath {
+		// the base directory is the root of this file system and can't be removed.
+		return &fs.PathError{Op: "remove", Path: name, Err: vfs.errPermDenied()}
+	}
+
 	err := vfs.baseFS.Remove(vfs.ToBasePath(name))
 
 	return vfs.pathError(err, name)
@@ -411,6 +416,23 @@ func (vfs *BasePathFS) RemoveAll(path string) error {
 		return nil
 	}
 
+	if vfs.ToBasePath(path) == vfs.basePath {
+		// the base directory is the root of this file system : its content is removed but it can't be removed itself.
+		entries, err := vfs.ReadDir(path)
+		if err != nil {
+			return err
+		}
+
+		for _, entry := range entries {
+			err = vfs.baseFS.RemoveAll(vfs.baseFS.Join(vfs.basePath, entry.Name()))
+			if err != nil {
+				return vfs.FromPathError(err)
+			}
+		}
+
+		return &fs.PathError{Op: "unlinkat", Path: path, Err: vfs.errPermDenied()}
+	}
+
 	err := vfs.baseFS.RemoveAll(vfs.ToBasePath(path))
 
 	return vfs.pathError(err, path)
@@ -421,6 +443,24 @@ func (vfs *BasePathFS) RemoveAll(path string) error {
 // OS-specific restrictions may apply when oldpath and newpath are in different directories.
 // If there is an error, it will be of type *LinkError.
 func (vfs *BasePathFS) Rename(oldname, newname string) error {
+	if vfs.ToBasePath(oldname) == vfs.basePath {
+		// the base directory is the root of this file system and can't be renamed
+		// (an invalid new name is reported first, as the base file system does).
+		err := vfs.errPermDenied()
+
+		info, e := vfs.baseFS.Stat(vfs.Dir(vfs.ToBasePath(newname)))
+		if pe, ok := e.(*fs.PathError); ok {
+			err = pe.Err
+		} else if e == nil && !info.IsDir() {
+			err = avfs.ErrNotADirectory
+			if vfs.OSType() == avfs.OsWindows {
+				err = avfs.ErrWinPathNotFound
+			}
+		}
+
+		return &os.LinkError{Op: "rename", Old: oldname, New: newname, Err: err}
+	}
+
 	err := vfs.baseFS.Rename(vfs.ToBasePath(oldname), vfs.ToBasePath(newname))
 
 	return vfs.linkError(err, oldname, newname)
@@ -559,4 +599,13 @@ func (vfs *BasePathFS) WalkDir(root string, fn fs.WalkDirFunc) error {
 // otherwise WriteFile truncates it before writing.
 func (vfs *BasePathFS) WriteFile(filename string, data []byte, perm fs.FileMode) error {
 	return avfs.WriteFile(vfs, filename, data, perm)
+}
+
+// errPermDenied returns the permission denied error of the emulated OS.
+func (vfs *BasePathFS) errPermDenied() error {
+	if vfs.OSType() == avfs.OsWindows {
+		return avfs.ErrWinAccessDenied
+	}
+
+	return avfs.ErrPermDenied
 }
